@@ -188,6 +188,14 @@ def compute_dyadic_downscaling(info, source_scale_index, downscaler,
 
     half_chunk = [osz // f
                   for osz, f in zip(old_chunk_size, downscaling_factors)]
+    # Each new chunk is assembled from at most two downscaled old chunks
+    # along each axis
+    if any(hc * f != osz or nsz not in (hc, 2 * hc)
+           for osz, f, hc, nsz in zip(old_chunk_size, downscaling_factors,
+                                      half_chunk, new_chunk_size)):
+        raise ValueError("Unsupported combination of chunk sizes between "
+                         f"scales {old_key} ({old_chunk_size}) and {new_key} "
+                         f"({new_chunk_size})")
     chunk_fetch_factor = [nsz // hc
                           for nsz, hc in zip(new_chunk_size, half_chunk)]
 
